@@ -57,10 +57,51 @@ def block_after(body, cond_re):
     return body[j:k + 1]
 
 
+def lincom_kernels(src_common):
+    """every index expression `(spf[GD_MAX_LINCOM + a] + i * spf[b]) / spf[c]` of the LINCOM kernels in common.c with
+    the input it indexes (dataN / iN  ->  input N-1): [(input, a, b, c)]"""
+    out = []
+    for m in re.finditer(r"(?:data(\d)\s*\[|const\s+int\s+i(\d)\s*=\s*2\s*\*\s*\()\s*\(\s*spf\s*\[\s*GD_MAX_LINCOM\s*\+\s*(\d+)\s*\]\s*\+\s*i\s*\*\s*"
+                         r"spf\s*\[\s*(\d+)\s*\]\s*\)\s*/\s*spf\s*\[\s*(\d+)\s*\]", src_common):
+        n = int(m.group(1) or m.group(2)) - 1
+        out.append((n, int(m.group(3)), int(m.group(4)), int(m.group(5))))
+    return out
+
+
+def unbalanced_exits(repo):
+    """every function of src/*.c that counts recursion (`++D->recurse_level`) must undo it on EVERY exit: for each
+    `return` after the increment, the statements since the last brace must contain `recurse_level--`.  Path
+    insensitive and textual on purpose: it knows nothing about which error is being returned.
+    -> ["file:function: return at line N leaves recurse_level incremented"]"""
+    out = []
+    d = os.path.join(repo, "src")
+    for fn in sorted(os.listdir(d)) if os.path.isdir(d) else []:
+        if not fn.endswith(".c"): continue
+        raw = open(os.path.join(d, fn), errors="replace").read()
+        txt = re.sub(r"/\*.*?\*/", lambda m: re.sub(r"[^\n]", " ", m.group(0)), raw, flags=re.S)   # keep line numbers
+        for m in re.finditer(r"\+\+\s*D->recurse_level", txt):
+            # enclosing function: the last line-initial '{' before the increment, matched to its '}'
+            st = txt.rfind("\n{", 0, m.start())
+            if st < 0: continue
+            k = st + 2; depth = 1
+            while k < len(txt) and depth:
+                depth += {"{": 1, "}": -1}.get(txt[k], 0); k += 1
+            head = txt[max(0, st - 600):st]
+            head = head[max(head.rfind("}"), head.rfind(";"), head.rfind("#")) + 1:]
+            nm = re.findall(r"\b([A-Za-z_][A-Za-z0-9_]*)\s*\(", head)
+            name = nm[0] if nm else "?"
+            for r in re.finditer(r"\breturn\b", txt[m.end():k]):
+                pos = m.end() + r.start()
+                b = max(txt.rfind("{", 0, pos), txt.rfind("}", 0, pos))
+                if "recurse_level--" not in txt[b:pos].replace(" ", ""):
+                    out.append("%s:%s: return at line %d leaves recurse_level incremented" % (fn, name, txt.count("\n", 0, pos) + 1))
+    return out
+
+
 def main():
     problems = []
     src = {}
-    for f in ("bzip.c", "getdata.c", "ascii.c", "iopos.c"):
+    for f in ("bzip.c", "getdata.c", "ascii.c", "iopos.c", "common.c"):
         try:
             src[f] = strip_comments(open(os.path.join(REPO, "src", f), errors="replace").read())
         except OSError as e:
@@ -130,11 +171,19 @@ def main():
         problems.append("PROBLEM PHASE shift: _GD_GetIOPos and _GD_Seek not recognised as one of the two consistent conventions")
     flags["fix_phase_sign"] = g_new and s_new
 
+    kernels = lincom_kernels(src["common.c"])
+    # every use of an alignment remainder in common.c must have been understood, or the table is incomplete
+    nrem = len(re.findall(r"spf\s*\[\s*GD_MAX_LINCOM", src["common.c"]))
+    if not kernels or len(kernels) != nrem:
+        problems.append("PROBLEM common.c: LINCOM kernels: %d index expressions understood, %d uses of an alignment remainder" % (len(kernels), nrem))
     out = ["(* generated by translate/tr_c02cfg.py from %s/src -- do not edit *)" % REPO,
            "From GD Require Import C02.Model.",
            "Definition tree_cfg : cfg :=",
            "  {| " + ";\n     ".join("%s := %s" % (k, "true" if flags[k] else "false") for k in
-                                     ["fix_bz_rewind", "fix_bz_eof", "fix_here", "fix_text_pseudo", "fix_leak", "fix_negseek", "fix_phase_sign", "fix_bz_err"]) + " |}."]
+                                     ["fix_bz_rewind", "fix_bz_eof", "fix_here", "fix_text_pseudo", "fix_leak", "fix_negseek", "fix_phase_sign", "fix_bz_err"]) + " |}.",
+           "(* (input, remainder used, rate multiplied, rate divided by) of every index expression of the LINCOM kernels in common.c *)",
+           "Definition tree_kernels : list (nat * nat * nat * nat) :=",
+           "  (" + " :: ".join(["(%d, %d, %d, %d)%%nat" % k for k in kernels] + ["nil"]) + ")%list."]
     os.makedirs(os.path.join(VERIF, "coq", "Gen"), exist_ok=True)
     p = os.path.join(VERIF, "coq", "Gen", "C02Cfg.v")
     txt = "\n".join(out) + "\n"
@@ -143,8 +192,11 @@ def main():
     if "--print" in sys.argv:
         for k, v in flags.items():
             print("FLAG %s %s" % (k, "true" if v else "false"))
+        print("KERNELS " + " ".join("%d,%d,%d,%d" % k for k in kernels))
     for pr in problems:
         print(pr)
+    for u in unbalanced_exits(REPO):
+        print("UNBALANCED " + u)
     return 0
 
 
